@@ -255,6 +255,19 @@ def run(ctx):
             nprob += 1
             if nprob <= 8:
                 ctx.violation(p, {'lex': r['lex'], 'topt': r['topt'], 'opts': r['opts']})
+    # scanners with different prefixes sharing one file of serialized tables (each finds its own set by name):
+    # the loader of one must not depend on what the sets of the others look like
+    from . import c15
+    nshared = {'quick': 6, 'thorough': 60}[ctx.tier]
+    with Pool(16) as pool:
+        shared = pool.map(c15._loader_job, [(flex, src, work, 900 + i, rng.getrandbits(48), 0) for i in range(nshared)], chunksize=1)
+    shared_runs = sum(r['runs'] for r in shared)
+    for r in shared:
+        for p in r['problems']:
+            if 'concatenation' in p:
+                nprob += 1
+                if nprob <= 8:
+                    ctx.violation('scanners with prefixes aa/bb/cc sharing one tables file: ' + p, {'job': r['idx']})
     if not linked:
         nprob += 1
         ctx.violation('two scanners with different prefixes cannot be linked into one program: ' + linkout, {'output': linkout})
@@ -268,9 +281,9 @@ def run(ctx):
                        'symbol (default skeleton: and link; c99: symbol sets); correspondence: 2-6 instances of generated reentrant C '
                        'scanners, c99 scanners and C++ lexer objects (the back end is drawn per scanner) stepped under random '
                        'schedules on one thread (ASan+UBSan) and run on separate threads under ThreadSanitizer must yield their '
-                       'solo token streams. Data races under the C memory model outside the explored executions are not excluded; '
+                       'solo token streams; three scanners with different prefixes load their tables from one concatenated file in every order. Data races under the C memory model outside the explored executions are not excluded; '
                        'a C++ scanner with -CF is refused by flex (status nobuild).',
-        'evaluations': runs, 'distinct_nontrivial': st.get('ok', 0) * 5,
+        'evaluations': runs + shared_runs, 'distinct_nontrivial': st.get('ok', 0) * 5, 'shared_tables_file_runs': shared_runs,
         'obligations': len(THEOREMS), 'discharged': discharged, 'status_counts': st,
         'footprint_facts': facts, 'prefix_clashes': clashes, 'samples': samples or [{'note': 'none'}],
     }
